@@ -143,21 +143,27 @@ fn unpack_header(buf: &[u8]) -> (r: Result<Header, SError>)
 
 //@ extract sst/src/lib.rs | fn corruption_header_size_exceeds_max
 //@ external-body
+//@ optional
 //@ end
 //@ extract sst/src/lib.rs | fn corruption_entry_size_exceeds_max
 //@ external-body
+//@ optional
 //@ end
 //@ extract sst/src/lib.rs | fn corruption_true_up_exceeds_header_max
 //@ external-body
+//@ optional
 //@ end
 //@ extract sst/src/lib.rs | fn corruption_crc_checksum_failed
 //@ external-body
+//@ optional
 //@ end
 //@ extract sst/src/lib.rs | fn corruption_truncation_no_second_header
 //@ external-body
+//@ optional
 //@ end
 //@ extract sst/src/lib.rs | fn corruption_invalid_discriminant
 //@ external-body
+//@ optional
 //@ end
 
 proof fn lemma_shift(offset: u64)
